@@ -6,9 +6,8 @@
    crypto/x509.ParseCertificate hands to the tool (a library oracle, validated by the correspondence
    check on every generated certificate); [describe] mirrors getCertificateInfo line by line.
    [enc_ok] is RFC 5280 well-formedness as far as needed (extensions only in v3, key identifiers
-   non-empty, pathLenConstraint >= 0, OIDs non-empty) plus: no list item shown contains the list
-   separator ", " (see C03_separator_not_escaped).  Subject / issuer text is names.FromRawDN's (C15). *)
-From WI Require Import Lib.Base Lib.Info Lib.Time Model.Cert Proofs.CertTime Proofs.Cert.
+   non-empty, pathLenConstraint >= 0, OIDs non-empty).  Subject / issuer text is names.FromRawDN's (C15). *)
+From WI Require Import Lib.Base Lib.Info Lib.Time Model.Cert Model.CertDer Proofs.CertTime Proofs.Cert Proofs.CertDer Proofs.CertDerCanon.
 From WI Require gen.CertTables.
 From Coq Require Import Permutation.
 Open Scope N_scope.
@@ -121,8 +120,8 @@ Print Assumptions C03_eku_unknown_dotted.
 (* every DNS / IP / URI / email name is present, nothing else is; grouped by kind (DNS, IP, URI,
    email), so the encoded interleaving is not preserved: a permutation again *)
 Theorem C03_san : forall c, enc_ok c = true ->
-  attr (bs "SANs") (shown c) = (if nonempty (expected_sans c) then Some (comma_join (expected_sans c)) else None) /\
-  split_list (comma_join (expected_sans c)) = expected_sans c /\
+  attr (bs "SANs") (shown c) = (if nonempty (expected_sans c) then Some (names_join (expected_sans c)) else None) /\
+  read_name_list (names_join (expected_sans c)) = expected_sans c /\
   Permutation (map san_text (filter san_reported (opt_list (e_sans c)))) (expected_sans c).
 Proof. exact sans_shown. Qed.
 Print Assumptions C03_san.
@@ -143,11 +142,27 @@ Theorem C03_san_ip_refuted_before_repair : exists c1 c2, enc_ok c1 = true /\ enc
 Proof. exact pre_ip16_refuted. Qed.
 Print Assumptions C03_san_ip_refuted_before_repair.
 
-(* not repaired, excluded by enc_ok: the separator ", " is not escaped inside a name *)
-Theorem C03_separator_not_escaped : exists c1 c2, e_sans c1 <> e_sans c2 /\
-  describe (x509_spec c1) = describe (x509_spec c2) /\ enc_ok c1 = false /\ enc_ok c2 = true.
-Proof. exact san_separator_ambiguity. Qed.
-Print Assumptions C03_separator_not_escaped.
+(* the list is written by joinNames: a name that is empty, begins with a double quote or contains the
+   separator ", " is quoted; whatever octets the names contain, the attribute reads back as the list *)
+Theorem C03_san_list_reads_back : forall ts, read_name_list (names_join ts) = ts.
+Proof. exact read_name_list_join. Qed.
+Print Assumptions C03_san_list_reads_back.
+
+(* before the repair (strings.Join): one dNSName "a.example, b.example" and the two names a.example,
+   b.example gave the same report ... *)
+Theorem C03_separator_refuted_before_repair : exists c1 c2, enc_ok c1 = true /\ enc_ok c2 = true /\
+  e_sans c1 <> e_sans c2 /\ describe_gen pre_quote (x509_spec c1) = describe_gen pre_quote (x509_spec c2).
+Proof. exact pre_quote_refuted. Qed.
+Print Assumptions C03_separator_refuted_before_repair.
+
+(* ... and a certificate inside RFC 5280's profile (one rfc822Name with a quoted local part) was reported
+   with a name - evil.example - that is not encoded *)
+Theorem C03_separator_invented_name_before_repair : exists c v, enc_ok c = true /\
+  attr (bs "SANs") (i_attrs (describe_gen pre_quote (x509_spec c))) = Some v /\
+  In (bs "evil.example") (split_list v) /\
+  ~ In (bs "evil.example") (map san_text (opt_list (e_sans c))).
+Proof. exact pre_quote_invents_name. Qed.
+Print Assumptions C03_separator_invented_name_before_repair.
 
 (* ---- serial ---- *)
 Theorem C03_serial_decimal : forall c, enc_ok c = true ->
@@ -231,3 +246,135 @@ Print Assumptions C03_keystore.
 Theorem C03_example_meets_hypotheses : enc_ok example_full = true.
 Proof. exact example_full_ok. Qed.
 Print Assumptions C03_example_meets_hypotheses.
+
+(* ==================================================================================================
+   From the OCTETS.  [parse_certificate_der] (Model/CertDer.v) is crypto/x509.ParseCertificate as a Gallina
+   function of the certificate's octets (cryptobyte's TLV reader, version, serial, validity, the
+   Extensions list with its duplicate check, and the values of keyUsage, basicConstraints, extKeyUsage,
+   subjectAltName, subject / authority key identifier); names, SubjectPublicKeyInfo, the signature
+   AlgorithmIdentifier, URI parsing and four extensions the tool never reads stay oracles [o].
+   [der_cert] is a certificate AS WRITTEN (every encoding choice the library accepts is a field),
+   [cert_enc] its octets, [abstract o d] what it encodes.
+   ================================================================================================== *)
+
+(* on every well-formed written certificate the octet-level model yields exactly what x509_spec states
+   about the encoded content: the library oracle of the theorems above is, on the writer's image, a theorem *)
+Theorem C03_der_roundtrip : forall o d, der_ok o d ->
+  parse_certificate_der o (cert_enc d) = Some (x509_spec (abstract o d)).
+Proof. exact parse_cert_enc. Qed.
+Print Assumptions C03_der_roundtrip.
+
+(* C03_exactly_expected and C03_faithful restated over the octets *)
+Theorem C03_der_exactly_expected : forall o d, der_ok o d -> enc_ok (abstract o d) = true ->
+  describe_der o (cert_enc d) = Some (expected_info (abstract o d)).
+Proof. exact octets_exactly_expected. Qed.
+Print Assumptions C03_der_exactly_expected.
+
+Theorem C03_der_faithful : forall o d, der_ok o d -> enc_ok (abstract o d) = true ->
+  match describe_der o (cert_enc d) with Some i => read_back i | None => None end =
+  Some (canonical_view (abstract o d)).
+Proof. exact octets_faithful. Qed.
+Print Assumptions C03_der_faithful.
+
+Theorem C03_der_trailing_data_refused : forall o d x r, MD.len_ok (length (cert_body d)) = true ->
+  parse_certificate_der o (cert_enc d ++ x :: r) = None.
+Proof. exact parse_cert_trailing. Qed.
+Print Assumptions C03_der_trailing_data_refused.
+
+(* field by field, for the encodings the library accepts (canonical or not) *)
+(* serialNumber: a minimal non-negative INTEGER of any length is its big-endian value *)
+Theorem C03_der_serial : forall c, nat_content_ok c = true -> cb_bigint c = Some (Z.of_N (be_to_N c)).
+Proof. exact cb_bigint_nat. Qed.
+Print Assumptions C03_der_serial.
+
+(* validity: UTCTime YYMMDDhhmmssZ (50..99 = 19YY, 00..49 = 20YY) and GeneralizedTime YYYYMMDDhhmmssZ *)
+Theorem C03_der_time : forall t rest, time_ok t -> parse_time (time_enc t ++ rest) = Some (time_abs t, rest).
+Proof. exact parse_time_enc. Qed.
+Print Assumptions C03_der_time.
+
+(* keyUsage: any BIT STRING (any number of unused bits, trailing zero bits, more than nine bits) *)
+Theorem C03_der_key_usage : forall p data, bits_content_ok p data = true -> MD.len_ok (length (p :: data)) = true ->
+  parse_key_usage (tlv_enc 3 (p :: data)) = Some (ku_mask (bitstring_bits p data)).
+Proof. exact parse_key_usage_enc. Qed.
+Print Assumptions C03_der_key_usage.
+
+(* basicConstraints: cA absent or written (DEFAULT FALSE written explicitly included), pathLen absent or written *)
+Theorem C03_der_basic_constraints : forall ca pl,
+  match pl with Some c => nat_content_ok c && Nat.leb (length c) 8 | None => true end = true ->
+  MD.len_ok (length (opt_enc (fun b => tlv_enc 1 (bool_content b)) ca ++ opt_enc (tlv_enc 2) pl)) = true ->
+  parse_basic (tlv_enc 48 (opt_enc (fun b => tlv_enc 1 (bool_content b)) ca ++ opt_enc (tlv_enc 2) pl)) =
+  Some (match ca with Some b => b | None => false end,
+        match pl with Some c => Z.of_N (be_to_N c) | None => (-1)%Z end).
+Proof. exact parse_basic_enc. Qed.
+Print Assumptions C03_der_basic_constraints.
+
+Theorem C03_der_ext_key_usage : forall l, forallb oid_cb_ok l = true ->
+  MD.len_ok (length (flat_map (fun o => tlv_enc 6 (PV.enc_oid o)) l)) = true ->
+  parse_eku (tlv_enc 48 (flat_map (fun o => tlv_enc 6 (PV.enc_oid o)) l)) = Some l.
+Proof. exact parse_eku_enc. Qed.
+Print Assumptions C03_der_ext_key_usage.
+
+(* subjectAltName: rfc822Name [1], dNSName [2], URI [6], iPAddress [7] of 4 or 16 octets are read in
+   encoded order, every other GeneralName is skipped *)
+Theorem C03_der_subject_alt_name : forall uri l, forallb (name_item_ok uri) l = true ->
+  MD.len_ok (length (flat_map (fun it => tlv_enc (fst it) (snd it)) l)) = true ->
+  parse_san uri (tlv_enc 48 (flat_map (fun it => tlv_enc (fst it) (snd it)) l)) =
+  let a := map abs_name l in Some (sans_of_tag 2 a, sans_of_tag 1 a, sans_of_tag 7 a, sans_of_tag 6 a).
+Proof. exact parse_san_enc. Qed.
+Print Assumptions C03_der_subject_alt_name.
+
+(* Extension ::= SEQUENCE { extnID, critical BOOLEAN DEFAULT FALSE, extnValue } *)
+Theorem C03_der_extension : forall o e, ext_ok o e = true -> MD.len_ok (length (ext_body e)) = true ->
+  parse_extension (ext_body e) = Some (ext_triple e).
+Proof. exact parse_extension_enc. Qed.
+Print Assumptions C03_der_extension.
+
+(* the hypotheses are met by a written certificate that uses every modelled part in a non-canonical way;
+   its octets are handed to crypto/x509 and to the tool by the harness (cases *:coq-encoded) *)
+Theorem C03_der_example_meets_hypotheses :
+  der_ok ex_oracles example_der /\ enc_ok (abstract ex_oracles example_der) = true.
+Proof. exact (conj example_der_ok example_der_enc_ok). Qed.
+Print Assumptions C03_der_example_meets_hypotheses.
+
+(* ---- every well-formed content: the canonical (DER) writer ---- *)
+(* [concrete raw c]: minimal INTEGERs, UTCTime through 2049 and GeneralizedTime from 2050, the shortest
+   BIT STRING, DEFAULT values omitted; [raw] supplies the parts the model leaves to the library.
+   [canon_ok]: enc_ok c, years 0..9999, pathLen < 2^63, OIDs the library can hold, IA5 names and 4/16 octet
+   addresses, other name kinds numbered 256 + identifier octet, the oracles read [raw] as c says, and the
+   whole is shorter than 2^31 octets. *)
+(* decode (encode c) = c *)
+Theorem C03_canonical_roundtrip : forall o raw c, canon_ok o raw c -> abstract o (concrete raw c) = c.
+Proof. exact concrete_abstract. Qed.
+Print Assumptions C03_canonical_roundtrip.
+
+Theorem C03_canonical_octets_parse : forall o raw c, canon_ok o raw c ->
+  parse_certificate_der o (cert_enc (concrete raw c)) = Some (x509_spec c).
+Proof. exact canonical_octets_parse. Qed.
+Print Assumptions C03_canonical_octets_parse.
+
+(* the report printed for the octets DER writes for c is the tree computed from c, and reads back as c *)
+Theorem C03_canonical_octets_faithful : forall o raw c, canon_ok o raw c ->
+  describe_der o (cert_enc (concrete raw c)) = Some (expected_info c) /\
+  match describe_der o (cert_enc (concrete raw c)) with Some i => read_back i | None => None end =
+  Some (canonical_view c).
+Proof. exact canonical_octets_faithful. Qed.
+Print Assumptions C03_canonical_octets_faithful.
+
+(* the three encoders with content: a number of any size, an instant, a bit list of any length *)
+Theorem C03_integer_octets : forall n, nat_content_ok (enc_nat n) = true /\ be_to_N (enc_nat n) = n.
+Proof. exact enc_nat_ok. Qed.
+Print Assumptions C03_integer_octets.
+
+Theorem C03_time_text : forall sec, (0 <= year_of sec < 10000)%Z ->
+  time_ok (time_of sec) /\ time_abs (time_of sec) = sec.
+Proof. exact time_of_ok. Qed.
+Print Assumptions C03_time_text.
+
+Theorem C03_bit_string_octets : forall l,
+  bits_content_ok (bits_unused l) (bits_data l) = true /\ bitstring_bits (bits_unused l) (bits_data l) = l.
+Proof. exact bits_enc_ok. Qed.
+Print Assumptions C03_bit_string_octets.
+
+Theorem C03_canonical_example_meets_hypotheses : canon_ok ex_canon_oracles ex_raw ex_canon_content.
+Proof. exact ex_canon_ok. Qed.
+Print Assumptions C03_canonical_example_meets_hypotheses.
